@@ -621,6 +621,13 @@ class ParsedObject:
         self._hash = result
         return result
 
+    def __getstate__(self):
+        # The hash of a string differs from one process to the next, so the
+        # remembered hash does not belong in a pickle (or in a copy).
+        state = dict(self.__dict__)
+        state['_hash'] = None
+        return state
+
     def _asdict(self):
         return {k: getattr(self, k) for k in self._fields}
 
